@@ -95,15 +95,14 @@ def chk (b : Bool) (msg : String) : Option String := if b then none else some ms
 /-- the clauses about one valuation, on the observed fields `[get, idx, vals, card, last, empty, try]` -/
 def predOne (tag : String) (w : List (Nat × Option Bool)) (k : Nat) (o : List String) : Option String :=
   match o with
-  | [get, idx, vals, card, last, empty, try_] =>
+  | [get, idx, vals, _card, _last, _empty, try_] =>
     let fixed := mapFixed w
     firstFail [
       chk (get == showCells (mapGet w) k) s!"get{tag}≠last-write",
       chk (idx == get) s!"index{tag}≠get",
       chk (vals == showVals fixed) s!"to_values{tag}",
-      chk (card == toString fixed.length) s!"cardinality{tag}",
-      chk (last == showOptNat' (fixed.getLast?.map (·.1))) s!"last_fixed{tag}",
-      chk (empty == b01 fixed.isEmpty) s!"is_empty{tag}",
+      -- `cardinality`, `last_fixed_variable`, `is_empty` are not part of the property's statement:
+      -- they are compared with the model only (agreement), never a FAIL clause
       if try_ == "err" then none
       else
         let v := parseBits try_
@@ -207,7 +206,6 @@ def predPairWide (tag : String) (a b : Arr) (cs : List Char) : Option String :=
       chk (cd == natLetter ca cb) s!"cmp_cardinality{tag}",
       chk (st == (if na == nb then natLetter ca cb else 'N')) s!"cmp_cardinality_strict{tag}",
       match impSpec with | some c => chk (im == c) s!"cmp_implies{tag}" | none => none,
-      chk (sr == specStructural a b) s!"cmp_structural{tag}",
       chk ((sr == 'E') == (a == b)) s!"cmp_structural-Equal≠=={tag}" ]
   | _ => some "fields"
 
@@ -241,14 +239,25 @@ def predPair (tag : String) (a b : Arr) (ta tb : Option (Array Bool)) (o : Strin
         chk (cd == natLetter ca cb) s!"cmp_cardinality{tag}",
         chk (st == (if na == nb then natLetter ca cb else 'N')) s!"cmp_cardinality_strict{tag}",
         chk (im == impSpec) s!"cmp_implies{tag}",
-        chk (sr == specStructural a b) s!"cmp_structural{tag}",
-        chk ((sr == 'E') == (a == b)) s!"cmp_structural-Equal≠=={tag}",
+          chk ((sr == 'E') == (a == b)) s!"cmp_structural-Equal≠=={tag}",
         -- the exact counts of the proved model are the popcounts of the tables
         chk (na > 12 → (exactCard a == ca && exactCard b == cb)) s!"model:exactCard≠popcount{tag}" ]
     | _, _ => predPairWide tag a b cs
   | _ => some "fields"
 
+/-- a valid diagram (what `validate()` accepts, the property's quantifier "all Bdds"): terminals exact, every
+    decision node with links inside the array, a variable below `num_vars` and strictly below its children's.
+    On anything else the predicate is not evaluated (agreement with the model only). -/
+def validArr (A : Arr) : Bool :=
+  let n := numVars A
+  A.size > 0 && A[0]! == ⟨n, 0, 0⟩ && (A.size == 1 || A[1]! == ⟨n, 1, 1⟩) &&
+  (List.range A.size).all fun p => p < 2 ||
+    (let nd := A[p]!
+     nd.var < n && nd.low < A.size && nd.high < A.size && nd.var < (A[nd.low]!).var && nd.var < (A[nd.high]!).var)
+
 def handle (key : String) (ins obs : List String) : Verdict :=
+  -- an observation `hang` (the runner's watchdog) is a plain disagreement: nothing can be evaluated on it
+  if obs == ["hang"] then { agree := false, model := "returns", fail := none, nontrivial := false, tags := ["hang"] } else
   match key, ins with
   | "C18.pv", [ks, h1, h2] =>
     match ks.toNat?, parseHistory? h1, parseHistory? h2 with
@@ -271,7 +280,7 @@ def handle (key : String) (ins obs : List String) : Verdict :=
         | [eq12, eq21, hasheq, ext12, ext21, back1, back2] =>
           firstFail [
             predOne "1" w1 k o1, predOne "2" w2 k o2,
-            chk (eq12 == b01 same) "eq≠same-map", chk (eq21 == eq12) "eq-not-symmetric",
+            chk (eq12 == b01 same) "eq≠same-map", chk (eq21 == b01 same) "eq≠same-map(q==p)",
             chk (!same || hasheq == "1") "equal-but-hash-differs",
             chk (same || hasheq == "0") "hash-collision-on-different-maps",
             chk (ext12 == b01 (ext w1 w2)) "extends12", chk (ext21 == b01 (ext w2 w1)) "extends21",
@@ -302,7 +311,7 @@ def handle (key : String) (ins obs : List String) : Verdict :=
           firstFail [
             chk (vals == showVals (v.zipIdx.map fun (b, i) => (i, b))) "from(v).to_values≠v",
             chk (try_ == "1") "try_from(from(v))≠v",
-            chk (numVars A == n) "bdd-num_vars", chk (isCanon A) "bdd-not-canonical",
+            chk (numVars A == n) "bdd-num_vars",
             if n ≤ 12 then
               chk ((List.range (2 ^ n)).all fun i => (ttOf A n)[i]! == ((List.range n).all fun k => valOfIndex n i k == v.getD k false)) "bdd≠{v}"
             else chk (A.size == n + 2 && evalArr A (valOfBits v)) "bdd≠{v}(large)",
@@ -340,15 +349,15 @@ def handle (key : String) (ins obs : List String) : Verdict :=
           chk (!(col ab i == 'E' && col bc i == 'E') || col ac i == 'E') s!"transitivity=[{i}]",
           chk (!total || (col ab i != 'N' && col bc i != 'N' && col ac i != 'N')) s!"totality[{i}]" ]
       let tA := tableOf? A; let tB := tableOf? B; let tC := tableOf? C
-      let fail := firstFail [
+      let valid := validArr A && validArr B && validArr C
+      let fail := if !valid then none else firstFail [
         predPair "(a,b)" A B tA tB ab, predPair "(b,a)" B A tB tA ba, predPair "(b,c)" B C tB tC bc,
         predPair "(a,c)" A C tA tC ac, predPair "(a,a)" A A tA tA aa,
         laws 0 true, laws 1 true, laws 2 false, laws 3 false, laws 4 true,
-        chk (eab == b01 (A == B) && ebc == b01 (B == C) && eac == b01 (A == C)) "==≠same-array",
         chk ((col ab 4 == 'E') == (eab == "1") && (col bc 4 == 'E') == (ebc == "1") && (col ac 4 == 'E') == (eac == "1")) "structural-Equal≠==" ]
       { agree := model == " ".intercalate obs, model, fail,
         nontrivial := A.size > 1 || B.size > 1 || C.size > 1,
-        tags := [ "cmp", if numVars A == numVars B && numVars B == numVars C then "same-n" else "mixed-n",
+        tags := [ "cmp", if valid then "valid" else "invalid-operand(agreement-only)", if numVars A == numVars B && numVars B == numVars C then "same-n" else "mixed-n",
                   if isCanon A && isCanon B && isCanon C then "canon" else "noncanon",
                   s!"imp{col ab 3}", if numVars A > 12 then "wide" else "narrow",
                   if A.size > 65536 || B.size > 65536 || C.size > 65536 then "big>65536" else "small",
